@@ -244,6 +244,37 @@ func c17Case(c *explore.Ctx, s *explore.SubStats, in c17Input, cn *c17Canon) {
 		return
 	}
 	s.Validated++
+	if len(srcs) == 2 {
+		// the order in which the same two source files are passed, one of them flagged built-in
+		// (a flag of the file, not of its place): same loadability, same schema
+		load := func(first, second *ast.Source) (string, error) {
+			var sc *ast.Schema
+			var e error
+			rr := guarded(4000000, 0, func() { sc, e = gqlparser.LoadSchema(first, second) })
+			if rr.Panicked {
+				return "panic: " + rr.PanicVal, nil
+			}
+			if e != nil {
+				return "", e
+			}
+			return schemaDump(sc), nil
+		}
+		for flagged := 0; flagged < 2; flagged++ {
+			a := &ast.Source{Name: srcs[0].Name, Input: srcs[0].Input, BuiltIn: flagged == 0}
+			b := &ast.Source{Name: srcs[1].Name, Input: srcs[1].Input, BuiltIn: flagged == 1}
+			d1, e1 := load(a, b)
+			d2, e2 := load(b, a)
+			s.Transitions += 2
+			if (e1 == nil) != (e2 == nil) {
+				bad(fmt.Sprintf("order/source-order-with-builtin-flag loads=%v/%v", e1 == nil, e2 == nil), fmt.Sprintf("two source files (the %s flagged built-in) load in one order and not in the other", []string{"first", "second"}[flagged]), fmt.Sprint(e1), fmt.Sprint(e2))
+				break
+			}
+			if e1 == nil && d1 != d2 {
+				bad("order/source-order-with-builtin-flag "+firstDiffLine(d1, d2), "two source files (one flagged built-in) load into different schemas depending on the order they are passed in", d1, d2)
+				break
+			}
+		}
+	}
 	if (err == nil) != cn.loads {
 		e := "loads"
 		if err != nil {
@@ -352,7 +383,7 @@ func part(line, comp string) string {
 
 func runC17(c *explore.Ctx) {
 	k := c.Pick(1, 2)
-	s := c.Sub("permute-split", fmt.Sprintf("every type system = base (3 blocks) + ≤ %d of %d menu items (valid and faulty), (quick: plus every pair of extension items and every extension × described-definition pair) under every permutation of its units and every cut of the permuted sequence into 1–3 named sources", k, len(gen.KitMenu)),
+	s := c.Sub("permute-split", fmt.Sprintf("every type system = base (3 blocks) + ≤ %d of %d menu items (valid and faulty), (quick: plus every pair of extension items, every extension × described-definition pair and every directive declaration × item using that directive; every two-source layout also in both source orders with either source flagged built-in) under every permutation of its units and every cut of the permuted sequence into 1–3 named sources", k, len(gen.KitMenu)),
 		"loads ⇔ the canonical order loads; the loaded schemas have equal canonical dumps; a load error names a source that holds a definition involved in a broken rule", "orderings that load")
 	if s == nil {
 		return
@@ -404,6 +435,21 @@ func runC17(c *explore.Ctx) {
 			for i, it := range gen.KitMenu {
 				if strings.HasPrefix(it, `"`) {
 					pairs = append(pairs, [2]int{exts[a], i})
+				}
+			}
+		}
+		// … and every directive (re)declaration with every item that uses a directive of that name
+		for i, it := range gen.KitMenu {
+			if !strings.HasPrefix(it, "directive @") {
+				continue
+			}
+			name := it[len("directive "):]
+			if k := strings.IndexAny(name, "( "); k > 0 {
+				name = name[:k]
+			}
+			for j, use := range gen.KitMenu {
+				if j != i && !strings.HasPrefix(use, "directive "+name) && (strings.Contains(use, name+" ") || strings.Contains(use, name+"(") || strings.Contains(use, name+")")) {
+					pairs = append(pairs, [2]int{i, j})
 				}
 			}
 		}
